@@ -1,6 +1,6 @@
 (* C02 — crash recovery applies every acknowledged insert exactly once. *)
 From Coq Require Import List Arith Bool Lia.
-From Zeno Require Import Crash CrashP.
+From Zeno Require Import Crash CrashP Facts Tie.
 Import ListNotations.
 
 (* Kill the process at any instant of any history of acknowledged inserts, WAL reads, row-store applications and
@@ -45,6 +45,16 @@ Theorem C02_scalar_histories_unaffected : forall ops, (forall p k, In (Ack p k) 
   crun false cinit ops = crun true cinit ops.
 Proof. exact scalar_histories_unaffected. Qed.
 
+(* tie to the source, re-read on every run: doProcessFlush and writeOffsets perform their durable steps in the order the
+   model's atomic Flush stands for (temp write, sync, close, rename = commit, then the swap of the in-memory stores),
+   and doInsert hands the row store ONE insert per point (the model with atomic = true) *)
+Theorem C02_flush_steps_as_modelled : gen_flush_steps = modelled_flush_steps.
+Proof. exact flush_steps_tied. Qed.
+Theorem C02_offset_file_steps_as_modelled : gen_offsets_steps = modelled_offsets_steps.
+Proof. exact offsets_steps_tied. Qed.
+Theorem C02_point_submitted_atomically : gen_point_submissions = modelled_point_submissions.
+Proof. exact point_submitted_once. Qed.
+
 Theorem C02_nonvacuous : exists ops, let s := catch_up true (crun true cinit ops) in
   4 <= length (ccontent s) /\ In Crash ops /\ In Flush ops.
 Proof. exact crash_nonvacuous. Qed.
@@ -56,4 +66,7 @@ Print Assumptions C02_offsets_and_rows_in_lock_step.
 Print Assumptions C02_clean_close_special_case.
 Print Assumptions C02_array_split_refuted.
 Print Assumptions C02_scalar_histories_unaffected.
+Print Assumptions C02_flush_steps_as_modelled.
+Print Assumptions C02_offset_file_steps_as_modelled.
+Print Assumptions C02_point_submitted_atomically.
 Print Assumptions C02_nonvacuous.
